@@ -11,7 +11,7 @@ Lemma is_transient_nn_neg : forall e, is_transient_nn e = negb (is_permanent_nn 
 Proof.
   intros e. unfold is_transient_nn. cbv zeta.
   destruct (is_permanent_nn e); [reflexivity|]. cbn [negb].
-  repeat case_if_b; reflexivity.
+  repeat first [ reflexivity | progress cbv iota zeta | progress cbn [orb andb negb] | case_if_b ].
 Qed.
 
 Lemma exclusive : forall oe, is_permanent oe = true -> is_transient oe = true -> False.
@@ -43,7 +43,7 @@ Proof.
   { unfold transient_cause in Ht. unfold is_permanent_nn. cbv zeta.
     destruct (err_is e SCanceled) eqn:H1, (err_is e SDeadline) eqn:H2, (err_as_timeout e) eqn:H3;
       cbn in Ht; try discriminate Ht;
-      repeat first [ reflexivity | progress cbv iota | case_if_b ]. }
+      repeat first [ reflexivity | progress cbv iota zeta | progress cbn [orb andb negb] | case_if_b ]. }
   rewrite Hp. split; reflexivity.
 Qed.
 
@@ -55,11 +55,11 @@ Proof.
   assert (H : is_permanent_nn e = true).
   { unfold transient_cause in Ht. unfold permanent_cause in Hp.
     apply orb_false_iff in Ht as [Ht Ht3]. apply orb_false_iff in Ht as [Ht1 Ht2].
-    unfold is_permanent_nn. cbv zeta. rewrite ?Ht1, ?Ht2, ?Ht3. cbv iota.
+    unfold is_permanent_nn. cbv zeta. rewrite ?Ht1, ?Ht2, ?Ht3. cbn [orb andb negb]. cbv iota.
     destruct (err_is e SInvalidConfig) eqn:H1, (err_is e SPermissionDenied) eqn:H2,
              (err_is e SBucketNotFound) eqn:H3;
       cbn in Hp; try discriminate Hp;
-      repeat first [ reflexivity | progress cbv iota | case_if_b ]. }
+      repeat first [ reflexivity | progress cbv iota zeta | progress cbn [orb andb negb] | case_if_b ]. }
   rewrite H. split; reflexivity.
 Qed.
 
